@@ -340,4 +340,24 @@ def c10_g(ctx: Ctx):
         out.append(ctx.inc(R, None, None, "no rename onto a cache / document file name found"))
     return out
 
-RULES = [c10_a, c10_b, c10_c, c10_d, c10_e, c10_f, c10_g]
+@rule("C10-h")
+def c10_h(ctx: Ctx):
+    """The schema migration puts the cache / history / config files at their new names by rename (os.replace), never by copying: a copy creates the file under its
+    final name and fills it afterwards, so a reader or a crash in between sees a torn state point cache."""
+    R = "C10-h"
+    out = []
+    for f in ctx.prog.funcs.values():
+        if not f.module.name.startswith("signac.migration") or f.module.is_dep:
+            continue
+        for c in body_nodes(f):
+            if isinstance(c, ast.Call):
+                e = common.ext_name(ctx, f, c) or ""
+                if e in ("shutil.copy", "shutil.copy2", "shutil.copyfile", "shutil.copyfileobj", "shutil.copytree", "shutil.move"):
+                    out.append(ctx.viol(R, f, c, f"{e} in a migration step: the destination exists under its final name while it is being written (and, for shutil.move across file systems, "
+                                        "likewise)", construct=f"{f.qual}|rename-only"))
+    if not out:
+        out.append(ctx.ok(R, None, None, "migration steps place files by os.replace / os.rename only", construct="signac.migration|rename-only"))
+    return out
+
+
+RULES = [c10_a, c10_b, c10_c, c10_d, c10_e, c10_f, c10_g, c10_h]
